@@ -2,10 +2,12 @@ from ..framework import Spec
 from ..ties_out import failclosed_oracle, slow_operand_oracle, output_modes_oracle
 from ..ties_sys import PROFILES
 from ..sysprog import gen_program
-from ..ties_sys import cli_tie, fault_sweep_tie, macro_scenario_tie
+from ..ties_sys import cli_tie, fault_sweep_tie, macro_scenario_tie, constraint_scenario_tie
 
 SPEC = Spec(pid='C14', coq_needs=['Base', 'Program', 'Match', 'ProgramIsa', 'NoFuel', 'Properties/C14'],
             ties=[cli_tie('general', n_quick=60, n_thorough=1000), fault_sweep_tie(per_kind_quick=2, per_kind_thorough=25),
                   # values a field or a configured range cannot hold, statements no variant accepts (generated-ISA scenarios)
-                  macro_scenario_tie(100, 2000)], oracles=[failclosed_oracle(), slow_operand_oracle(),
+                  macro_scenario_tie(100, 2000),
+                  # values on the wrong side of a page / zone / offset bound must not be assembled
+                  constraint_scenario_tie(100, 2000)], oracles=[failclosed_oracle(), slow_operand_oracle(),
                      output_modes_oracle(lambda rng, tier: gen_program(rng, dict(PROFILES['general'], p_fault=0.5), tier), 40, 600)])
